@@ -23,13 +23,27 @@ def purge_mpyc():
 def import_mpyc(argv):
     """Import a fresh private copy of the mpyc package with the given command line; the copy is
     removed from sys.modules afterwards (returned as a dict)."""
+    import secrets as _secrets
     saved = purge_mpyc()
     old_argv = sys.argv
     sys.argv = ['vf'] + list(argv)
+    # PRSS keys are drawn by Runtime.__init__ during import: make them deterministic, distinct symbols
+    tag = 0
+    for a in argv:
+        if a.startswith('-I'):
+            tag = builtins.int(a[2:])
+    kc = [0]
+    real_token_bytes = _secrets.token_bytes
+
+    def token_bytes(n=32):
+        kc[0] += 1
+        return bytes([0x4b, tag]) + kc[0].to_bytes(n - 2, 'little')
+    _secrets.token_bytes = token_bytes
     try:
         importlib.import_module('mpyc.runtime')
         mods = {k: v for k, v in sys.modules.items() if k == 'mpyc' or k.startswith('mpyc.')}
     finally:
+        _secrets.token_bytes = real_token_bytes
         sys.argv = old_argv
         purge_mpyc()
         sys.modules.update(saved)
